@@ -75,6 +75,18 @@ CHECKS.append(
              "unchanged tree: 47 520 realisations, 0 failures. Noise Gaussian truncated at 3 sd, independent of weight; bin spacing < 1e5 except one declared arm gap "
              "(>= 100 bins from the step); boundaries at the arm gap are not counted as breakpoints. Trusted: TLC, the harness summary of the input table, milli-unit "
              "rounding of segment means."})
+CHECKS.append(
+    {"id": "C20", "level": "model_checking",
+     "technique": "TLA+ spec (Exports.tla) + TLC exhaustive small scopes replayed into cnvlib.export / the export commands + TLC trace validation of the tokenised real outputs",
+     "design_ref": "DESIGN.md section 8 C20, 13",
+     "text": "TLC enumerates segment tables (classes auto/X/Y x cn 0..5 or a ratio grid x start 0/1/100 and PAR edges) with every ploidy, sample sex, reference sex, naming "
+             "style and PAR genome in seed-sharded full products, and 1..3 input files over a small bin set for seg/jtv/cdt/nexus; the modelled algorithm (A-layer) is checked "
+             "against the statement (P-layer) and every enumerated record is run through the real export code, whose written text is tokenised and judged by TLC clause by "
+             "clause (which segments appear; POS/END/SVTYPE/ALT/SVLEN/CN; 1-based SEG rows under their id; one labelled row per bin with each sample's log2 in its own "
+             "column; refusal of differing bins). Random larger tables and 1..5 files with mismatching bins / repeated ids are judged the same way.",
+     "note": "Trusted: TLC, the tokeniser (tab/;/=/: splitting, int/decimal literal recognition), construction of CopyNumArray objects and .cns/.cnr files from the encoded "
+             "rows, math.log2. P-layer is order-free; BED label column, VCF GT/GQ/CNQ/PROBES/FOLD_CHANGE, CIPOS/CIEND (--cnr) are A-layer only. Premises: one naming style per "
+             "table, 0<=start<end, exact rounding ties excluded, vcf needs an integer probes column, input files non-empty and sorted."})
 
 _ALL = [f"C{n:02d}" for n in range(1, 21)]
 _claimed = {c["id"] for c in CHECKS}
